@@ -43,6 +43,9 @@ type Link struct {
 	Jitter      time.Duration
 	Frag        bool // deliver writes in tape-sized pieces
 	HoleFor     time.Duration // how long a black-holed connection stays up before it is reset
+	// SlowWrite, if set, returns how long a Write call stays blocked after the bytes have been
+	// handed to the link (a loaded sender: the remote side may react before Write returns).
+	SlowWrite func(side int) time.Duration
 	resetAt     time.Duration
 	Tape        *simrt.Tape
 	// FaultAtWrite, if set, is asked before every write (n = write index on this conn, side 0 =
@@ -206,6 +209,11 @@ func (c *Conn) Write(p []byte) (int, error) {
 	}
 	c.out.lastAt = at
 	c.out.cond.Broadcast()
+	if c.link.SlowWrite != nil {
+		if d := c.link.SlowWrite(c.side); d > 0 {
+			simrt.Sleep(d)
+		}
+	}
 	return len(p), nil
 }
 
